@@ -26,9 +26,10 @@ CLAIMS = {
          "TLC validates each recorded swap against the path predicate of the spec (crossed = initialized ticks between start and end tick over all ticks of the pool, once, in order, "
          "net applied, no step jumps a tick) and the packaging-invariance / fail-rather-than-skip / foreign-array predicates; toy instance: crossing rules compose (LiqSum, TickSums)",
          "quick samples 240 layouts; thorough runs all 4764 x 8 seeds", "4 C10"),
- "C14": ("trace validation of every recorded swap on adaptive-fee pools (random valid constants, arbitrary non-decreasing clocks, zero-liquidity gaps, limits inside tick-group boundary "
+ "C14": ("TLC model checking of AdaptiveFee.tla (the FeeRateManager's nested loops with the skip optimisation, all start prices / limits / references / liquidity layouts of a toy line: every traded price "
+         "unit is charged its own tick group's rate, stored accumulator of the end group, cap) + trace validation of every recorded swap on adaptive-fee pools (random valid constants, arbitrary non-decreasing clocks, zero-liquidity gaps, limits inside tick-group boundary "
          "ticks): the spec's UpdateReference / Acc / AdaptiveRate / TotalRate are evaluated per step for every tick group the step's price segment spans, and on the stored variables "
-         "after the swap; trade-enable time; major-swap timestamp", "needs the swap-step hook; the tick groups spanned by a step are computed with the program's own tick math (C09 covers it); no toy-scale model of the volatility schedule yet", "4 C14"),
+         "after the swap; trade-enable time; major-swap timestamp", "needs the swap-step hook; the tick groups spanned by a step are computed with the program's own tick math (C09 covers it); the toy model (AdaptiveFee.tla) abstracts the step to stopping anywhere up to the bounded target and takes the updated reference as given", "4 C14"),
  "C15": ("spec -> impl replay of a substitution matrix + trace validation: for every slot of every fund-moving/privileged instruction, single-account substitutions by accounts of the same "
          "kind; TLC checks ok => interface relations of module WpIface (vault of the pool for that token, mint, position/tick array/oracle of the pool, reward vault of the index, "
          "token program owning the mint, memo program), two-hop distinct pools sharing the intermediate mint",
